@@ -70,6 +70,10 @@ impl Findings {
     out
   }
 
+  pub fn active_exclusions(&self) -> Vec<String> {
+    self.active.iter().cloned().collect()
+  }
+
   pub fn exclusion_active(&self, name: &str) -> bool {
     self.active.contains(name)
   }
